@@ -69,6 +69,30 @@ def workload(tier, rng, acc):
             api = rng.choice(["recv", "recv", "setavail"])
             execs.append(gen.decode_exec(p, sorted(o) if api == "setavail" else o, api=api, finish=True,
                                          cb=rng.choice([None, None, "buf", "mix"]), probe=rng.choice(["end", "each"])))
+        # rectangles are the cycles of a product code: three corners lost with the fourth arriving last (its row and its
+        # column check both reach one unknown and the chain from one comes back to the other), four corners lost for
+        # good (not recoverable: of_finish_decoding goes through the elimination and fails), several disjoint ones
+        for (dd, ll) in {(a, k // a) for a in range(2, k) if k % a == 0 and a + k // a == r and k // a >= 2}:
+            for _ in range((40 if q else 400) if (dd >= 4 and ll >= 4) else (12 if q else 120)):
+                nrect = 2 if (dd >= 4 and ll >= 4 and rng.random() < 0.7) else 1
+                rows = rng.sample(range(dd), 2 * nrect)
+                cols = rng.sample(range(ll), 2 * nrect)
+                gone, late = set(), []
+                for t in range(nrect):
+                    corners = [ra * ll + ca for ra in rows[2 * t:2 * t + 2] for ca in cols[2 * t:2 * t + 2]]
+                    rng.shuffle(corners)
+                    mode = rng.choice(["3+last", "3+last", "4lost", "3lost"])
+                    if mode == "4lost":
+                        gone |= set(corners)
+                    else:
+                        gone |= set(corners[:3])
+                        if mode == "3+last":
+                            late.append(corners[3])
+                            gone.add(corners[3])      # not among the early arrivals
+                early = [e for e in range(n) if e not in gone and rng.random() < 0.97]
+                rng.shuffle(early)
+                execs.append(gen.decode_exec(p, early + late, api="recv", finish=True, cb=rng.choice([None, None, "buf", "null"]),
+                                             probe=rng.choice(["end", "each"])))
         # release at every point of one history
         order = rng.sample(range(n), n - 1)
         for rel in range(0, n + 2):
